@@ -52,7 +52,7 @@ func VerifAccRecords(c *Codec) ([]MapRecord, error) { return c.Acc.MarshalMap() 
 // fields); VerifMarshalRec builds the real record struct the line's UnmarshalText would build
 // and returns its real MarshalMap output.
 type VerifRec struct {
-	Kind   byte // 'Z' SOA, '&' NS (+glue when IP != nil), '+' address, 'C' CNAME, '\'' TXT, '@' MX (+address when IP != nil), 'M' resolver map, '8' ECS map, '%' subnet, ':' generic
+	Kind   byte // '.' SOA+NS(+glue) in one line (text mode only), 'Z' SOA, '&' NS (+glue when IP != nil), '+' address, 'C' CNAME, '\'' TXT, '@' MX (+address when IP != nil), 'M' resolver map, '8' ECS map, '%' subnet, ':' generic
 	Dom    []byte // owner name in text form, no trailing dot ("c.z"), "" or "." for the root
 	Wild   bool   // "*." + Dom
 	Loc    []byte // nil or 2 bytes
@@ -75,8 +75,172 @@ func (r VerifRec) shared() rshared {
 	return rshared{ttl: r.TTL, lo: lo, dom: r.Dom, iswildcard: r.Wild}
 }
 
+// VerifViaText makes VerifMarshalRec go through the data-file text: the record is written as a
+// line (VerifRecLine, a statement of the documented syntax that is independent of the
+// repository's MarshalText) and compiled by the real Codec.ConvertLn, so that the text parser is
+// part of what the harness executes. Fields other than locations and map ids must then be concrete.
+var VerifViaText bool
+
+func verifOct(out []byte, b byte) []byte {
+	return append(out, '\\', '0'+(b>>6)&7, '0'+(b>>3)&7, '0'+b&7)
+}
+
+func verifTextName(out []byte, dom []byte, wild bool) []byte {
+	if wild {
+		out = append(out, '*', '.')
+	}
+	for _, b := range dom {
+		if b >= 'a' && b <= 'z' || b >= 'A' && b <= 'Z' || b >= '0' && b <= '9' || b == '-' || b == '.' || b == '_' {
+			out = append(out, b)
+		} else {
+			out = verifOct(out, b)
+		}
+	}
+	return out
+}
+
+func verifTextUint(out []byte, v uint64) []byte {
+	if v >= 10 {
+		out = verifTextUint(out, v/10)
+	}
+	return append(out, '0'+byte(v%10))
+}
+
+func verifTextIP(out []byte, ip []byte) []byte {
+	if len(ip) == 16 {
+		mapped := ip[10] == 0xff && ip[11] == 0xff
+		for i := 0; i < 10; i++ {
+			mapped = mapped && ip[i] == 0
+		}
+		if !mapped {
+			const hex = "0123456789abcdef"
+			for i := 0; i < 16; i += 2 {
+				if i > 0 {
+					out = append(out, ':')
+				}
+				out = append(out, hex[ip[i]>>4], hex[ip[i]&15], hex[ip[i+1]>>4], hex[ip[i+1]&15])
+			}
+			return out
+		}
+		ip = ip[12:]
+	}
+	for i := 0; i < len(ip) && i < 4; i++ {
+		if i > 0 {
+			out = append(out, '.')
+		}
+		out = verifTextUint(out, uint64(ip[i]))
+	}
+	return out
+}
+
+func verifTextLoc(out []byte, lo []byte) []byte {
+	if len(lo) == 2 {
+		out = verifOct(verifOct(out, lo[0]), lo[1])
+	}
+	return out
+}
+
+// VerifRecLine writes r as a data-file line (fields separated by commas, every optional field
+// given explicitly except the timestamp).
+func VerifRecLine(r VerifRec) []byte {
+	out := []byte{r.Kind}
+	name := func() { out = verifTextName(out, r.Dom, r.Wild) }
+	sep := func() { out = append(out, ',') }
+	tail := func() { // ttl,timestamp,lo
+		out = verifTextUint(out, uint64(r.TTL))
+		sep()
+		sep()
+		out = verifTextLoc(out, r.Loc)
+	}
+	switch r.Kind {
+	case 'Z': // Zfqdn,mname,rname,ser,ref,ret,exp,min,ttl,timestamp,lo
+		name()
+		sep()
+		out = verifTextName(out, r.Target, false)
+		out = append(out, ",hostmaster."...)
+		out = verifTextName(out, r.Dom, false)
+		out = append(out, ",1,16384,2048,1048576,2560,"...)
+		tail()
+	case '.', '&': // fqdn,ip,x,ttl,timestamp,lo
+		name()
+		sep()
+		out = verifTextIP(out, r.IP)
+		sep()
+		out = verifTextName(out, r.Target, false)
+		sep()
+		tail()
+	case '+': // +fqdn,ip,ttl,timestamp,lo,weight
+		name()
+		sep()
+		out = verifTextIP(out, r.IP)
+		sep()
+		tail()
+		sep()
+		out = verifTextUint(out, uint64(r.Weight))
+	case 'C': // Cfqdn,target,ttl,timestamp,lo
+		name()
+		sep()
+		out = verifTextName(out, r.Target, false)
+		sep()
+		tail()
+	case '\'': // 'fqdn,text,ttl,timestamp,lo
+		name()
+		sep()
+		out = verifTextName(out, r.Txt, false)
+		sep()
+		tail()
+	case '@': // @fqdn,ip,x,dist,ttl,timestamp,lo
+		name()
+		sep()
+		out = verifTextIP(out, r.IP)
+		sep()
+		out = verifTextName(out, r.Target, false)
+		sep()
+		out = verifTextUint(out, uint64(r.Dist))
+		sep()
+		tail()
+	case ':': // :fqdn,type,rdata,ttl,timestamp,lo
+		name()
+		sep()
+		out = verifTextUint(out, uint64(r.Rtype))
+		sep()
+		out = verifTextName(out, r.Txt, false)
+		sep()
+		tail()
+	case 'M', '8': // fqdn,lmap
+		name()
+		sep()
+		out = verifOct(verifOct(out, r.Lmap[0]), r.Lmap[1])
+	case '%': // %lo,ip/len,lmap
+		out = verifTextLoc(out, r.Loc)
+		sep()
+		out = verifTextIP(out, r.IP)
+		out = append(out, '/')
+		ones := r.Ones
+		if len(verifTextIP(nil, r.IP)) > 0 && !bytesContainsColon(verifTextIP(nil, r.IP)) {
+			ones -= 96
+		}
+		out = verifTextUint(out, uint64(ones))
+		sep()
+		out = verifOct(verifOct(out, r.Lmap[0]), r.Lmap[1])
+	}
+	return out
+}
+
+func bytesContainsColon(b []byte) bool {
+	for _, c := range b {
+		if c == ':' {
+			return true
+		}
+	}
+	return false
+}
+
 // VerifMarshalRec: see VerifRec.
 func VerifMarshalRec(c *Codec, r VerifRec) ([]MapRecord, error) {
+	if VerifViaText {
+		return c.ConvertLn(VerifRecLine(r))
+	}
 	var rec Record
 	switch r.Kind {
 	case 'Z':
